@@ -28,13 +28,14 @@ func (c *char) initTraces() {
 			Amount: 15.0,
 		})
 	}
-	if c.info.Traces["103"] {
-		modifier.Register(A6, modifier.Config{
-			Listeners: modifier.Listeners{
-				OnTriggerDeath: A6Buff,
-			},
-		})
-	}
+}
+
+func init() {
+	modifier.Register(A6, modifier.Config{
+		Listeners: modifier.Listeners{
+			OnTriggerDeath: A6Buff,
+		},
+	})
 }
 
 func A6Buff(mod *modifier.Instance, target key.TargetID) {
